@@ -536,6 +536,18 @@ func sameFrames(a, b []frame) bool {
 	return true
 }
 
+// normalise puts a state-invalidated unsubscribe push after the sub_refresh reply it is adjacent to.
+func normalise(a []frame) []frame {
+	out := append([]frame(nil), a...)
+	for i := 0; i+1 < len(out); i++ {
+		if out[i].T == "unsub" && out[i].Code == 2502 && out[i+1].T == "reply" && out[i+1].K == "sub_refresh" {
+			out[i], out[i+1] = out[i+1], out[i]
+			i++
+		}
+	}
+	return out
+}
+
 func sameBag(a, b []frame) bool {
 	if len(a) != len(b) {
 		return false
@@ -694,7 +706,7 @@ func (w *worker) run9(bi int, beh []map[string]any, proto centrifuge.ProtocolTyp
 	var c cfg9
 	_ = json.Unmarshal([]byte(vh.J(beh[0]["cfg"])), &c)
 	r := &runner{w: w, cfg: c, proto: proto, kept: map[int]func(string){}, keptID: map[int]int{}, causes: map[int]bool{}}
-	tag := fmt.Sprintf("%d_%d_%d", vh.Seed(), bi, proto)
+	tag := fmt.Sprintf("%d_%d_%s", vh.Seed(), bi, proto)
 	r.ch, r.pubch = "c9_"+tag, "c9p_"+tag
 	w.sch.reset()
 	t := cl.NewTransport(proto)
@@ -888,10 +900,8 @@ func (w *worker) run9(bi int, beh []map[string]any, proto centrifuge.ProtocolTyp
 			drift("the code under test panicked: " + panicked)
 			break
 		}
-		same := sameFrames(real, mo)
-		if !same && (sget(step, "res") == "tagschange" || sget(step, "mode") == "tagschange") {
-			same = sameBag(real, mo) // the order of the unsubscribe push and the reply is not part of the model's claim
-		}
+		// the order of the state-invalidated unsubscribe push and the sub_refresh reply is not part of the model's claim
+		same := sameFrames(normalise(real), normalise(mo))
 		if !same {
 			drift(fmt.Sprintf("frames differ after %s: real %s, model %s", vh.J(step), vh.J(real), vh.J(mo)))
 			break
